@@ -41,3 +41,13 @@ package config
 // into configuration memory only if the empty slice had spare capacity, which the parser never produces (it leaves
 // the field nil); slice capacities of parsed configurations are not under contract.
 //@ assume_obligation (*config.Config).GetKpasswdServers#frame:loop3.A.string :: an empty KPasswdServer slice has no spare capacity (the parser leaves it nil)
+
+// Property C16, final-value marker: once a relation's flag is set nothing more is appended; otherwise the value is
+// appended (without a trailing '*', which sets the flag).
+//@ func config.appendUntilFinal(s, value, final)
+//@   modifies *s, *final, elems((*s)[len(*s):cap(*s)])
+//@   ensures old(*final) ==> *s == old(*s) && *final
+//@   ensures !old(*final) ==> len(*s) == old(len(*s)) + 1 && (*final <==> (len(value) >= 1 && value[len(value) - 1] == 42))
+//@   ensures !old(*final) ==> forall k int :: 0 <= k && k < old(len(*s)) ==> (*s)[k] == old((*s)[k])
+//@   ensures !old(*final) && !(len(value) >= 1 && value[len(value) - 1] == 42) ==> (*s)[len(*s) - 1] == value
+//@   ensures !old(*final) && len(value) >= 1 && value[len(value) - 1] == 42 ==> len((*s)[len(*s) - 1]) == len(value) - 1
